@@ -226,7 +226,7 @@ class C14(Prop):
     rule = ("envelope sequences (0-5 messages; flags from {0,1,2,3,0x80,0x81,0x82,0xff,...} and random 0..255; lengths 0,1,..6 and random <= 600; "
             "end-stream messages for Connect (0x02) and gRPC-Web (0x80), flagged compressed or not, payload = output of the repository's own "
             "compressor for the negotiated encoding / plain text / refused garbage / empty; negotiated encoding identity, the five named ones, "
-            "unknown, none) x ALL compositions into chunks of every body <= 11 bytes (quick; 13 thorough) and of every truncation of it x random "
+            "unknown, none) x ALL compositions into chunks of every body <= 13 bytes (quick; 15 thorough) and of every truncation of it x random "
             "chunkings (single, byte-by-byte, boundary-aligned, boundary+-1, random with empty chunks) of larger ones x every truncation point of "
             "medium streams, request and response side, through three entry points: raw dataTracer.trace/emitUnfinished (c14.raw), "
             "newReader/tracingReader.Read/Close with a scripted inner reader incl. data+EOF, (0,EOF), other error, Close, calls after the end "
@@ -250,7 +250,7 @@ class C14(Prop):
                   "envelope's compressed bit is set, and hands the caller exactly the inner bytes/counts/errors; the model is tied to the Go code "
                   "by a bounded-exhaustive plus random differential run on every check.")
     level_note = ("Trusted: Coq kernel, extraction, OCaml driver, harness; model-to-code correspondence is sampled (all compositions of bodies "
-                  "<= 11/13 bytes and of their truncations), not proved. Decompressors are an oracle. The pass-through theorem is about the model's "
+                  "<= 13/15 bytes and of their truncations), not proved. Decompressors are an oracle. The pass-through theorem is about the model's "
                   "wrapper contract; that the Go wrappers meet it is what the differential run checks (identity of error values, bytes, counts, "
                   "header map).")
     technique = ("Coq proof: trace (a ++ b) = trace a ; trace b under a state invariant, induction over the chunk list, then equality of the "
@@ -308,7 +308,7 @@ class C14(Prop):
         conn = ["application/connect+proto", "", "", ""]
 
         # 1. bounded-exhaustive: ALL compositions of every small body and of every truncation of it
-        lim = 11 if quick else 13
+        lim = 13 if quick else 15
         small = [
             (b"", []),
             (envelope(0, b""), []),
@@ -325,6 +325,8 @@ class C14(Prop):
             (envelope(0x7D, b"q", declared=0x01000000), []),    # payload cut short of a large declared length
             (envelope(0xFF, b"q", declared=0x0100), []),        # the same inside an end-stream message (buffer sized by the prefix)
             (envelope(0, b"abcdefgh"), []),
+            (envelope(2, b"{}") + envelope(0, b"ab"), []),
+            (envelope(0, b"") + envelope(1, b"") + envelope(0x80, b""), []),
         ]
         for body, _ in small:
             if len(body) > lim:
@@ -379,7 +381,7 @@ class C14(Prop):
                 yield ["c14.reader", 0, conn, [], reader_ops(chunks, "eof")]
 
         # 2. random larger streams, random chunkings, through all entry points
-        n_rand = 6000 if quick else 250000
+        n_rand = 30000 if quick else 250000
         for _ in range(n_rand):
             r = rng.random()
             entry = "raw" if r < 0.4 else ("reader" if r < 0.75 else "writer")
@@ -408,7 +410,7 @@ class C14(Prop):
                 yield ["c14.writer", hdr, table, writer_ops(chunks, None if rng.random() < 0.85 else rng.randrange(len(chunks) + 1))]
 
         # 3. every truncation point of medium streams
-        for _ in range(25 if quick else 600):
+        for _ in range(70 if quick else 600):
             req = rng.random() < 0.5
             enc = rng.choice(NAMED)
             dk = rng.choice([DIDENT, DNAMED])
@@ -429,7 +431,7 @@ class C14(Prop):
             yield raw(0, 1, DNAMED, "gzip", [], [envelope(flags, b"{}")])
 
         # 5. non-stream bodies: one data event with the total, whatever the chunking
-        for _ in range(150 if quick else 4000):
+        for _ in range(300 if quick else 4000):
             body = g.payload(rng.choice([0, 1, 5, 6, 40, 700]))
             chunks = cut(body, g.chunking(len(body)))
             hdr = headers_for(rng, False)
